@@ -117,7 +117,108 @@ def oracle(ops):
             return probs, i, nontriv
     return [], None, nontriv
 
+# ---- second scenario family: attackers that are not (yet) registered in the graph ---------------------------
+def free_case(rnd):
+    """several Attacker objects, some not registered with add_attacker (their ids are all None) or registered in another
+    graph (ids restart at 0 there), compromise parents of 'and' steps through the public compromise(); every query is
+    answered per attacker *object*"""
+    from maltoolbox.attackgraph import AttackGraph, AttackGraphNode, Attacker
+    from maltoolbox.attackgraph import query
+    g1, g2 = AttackGraph(), AttackGraph()
+    n = rnd.randint(3, 7)
+    nodes = []
+    for i in range(n):
+        nd = AttackGraphNode(type=rnd.choices(['or', 'and'], [2, 5])[0], name=f's{i}', ttc=None)
+        nd.is_viable = rnd.random() < 0.85; nd.is_necessary = rnd.random() < 0.8
+        g1.add_node(nd); nodes.append(nd)
+    for p in range(n):
+        for c in range(n):
+            if rnd.random() < 2.0 / n:
+                nodes[p].children.append(nodes[c]); nodes[c].parents.append(nodes[p])
+    kinds = [rnd.choice(['free', 'free', 'here', 'other']) for _ in range(rnd.randint(2, 4))]
+    atts = []
+    for j, kind in enumerate(kinds):
+        a = Attacker(name=rnd.choice(['att', f'att{j}']), entry_points=[], reached_attack_steps=[])
+        if kind == 'here': g1.add_attacker(a)
+        elif kind == 'other': g2.add_attacker(a)
+        atts.append(a)
+    log = []
+    for _ in range(rnd.randint(2, 10)):
+        a = rnd.choice(atts); nd = rnd.choice(nodes)
+        a.compromise(nd); log.append(f'compromise {nd.name} by {kinds[atts.index(a)]}#{atts.index(a)}')
+    for j, a in enumerate(atts):
+        for nd in nodes:
+            got = query.is_node_traversable_by_attacker(nd, a)
+            if got != trav_ref(nd, a):
+                return f'is_node_traversable_by_attacker({nd.name}, attacker #{j} [{kinds[j]}, id {a.id}]) is {got}, its definition says {trav_ref(nd, a)}', {'kinds': kinds, 'log': log}
+        got = query.get_attack_surface(a)
+        if sorted(x.id for x in got) != surface_ref(a):
+            return f'attack surface of attacker #{j} [{kinds[j]}, id {a.id}] is not the set of traversable children of its reached steps', {'kinds': kinds, 'log': log}
+    return None, {'kinds': kinds, 'log': log}
+
+# ---- third scenario family: queries on generated graphs, before and after regeneration -----------------------
+def generated_case(rnd):
+    """language + model -> generated graph with attached attackers; the defense queries and the attack surfaces are
+    asked, the model is edited (a defense value flipped), the graph regenerated, and everything asked again: each
+    answer must be the definition evaluated on the nodes that are in the graph *now*"""
+    from ..langgen import LangGen, gen_model, build_lang, build_model
+    from maltoolbox.attackgraph import AttackGraph, query
+    from maltoolbox.attackgraph.analyzers import apriori
+    spec = LangGen(rnd).gen(); inst = gen_model(rnd, spec)
+    lg, fac = build_lang(spec); m, byid = build_model(fac, inst)
+    g = AttackGraph(lg, m)
+    steps = []
+    def ask(tag):
+        ds = query.get_defense_surface(g); en = query.get_enabled_defenses(g)
+        inside = {id(x) for x in g.nodes}
+        for nm, got, one in (('defense surface', ds, False), ('enabled defenses', en, True)):
+            if any(id(x) not in inside for x in got):
+                return f'{nm} ({tag}) contains a node that is not in the graph'
+            want = sorted(x.id for x in g.nodes if x.type == 'defense' and 'suppress' not in x.tags and ((x.defense_status == 1.0) == one))
+            if sorted(x.id for x in got) != want:
+                return f'{nm} ({tag}) differs from its definition'
+        for a in g.attackers:
+            got = query.get_attack_surface(a)
+            if sorted(x.id for x in got) != surface_ref(a) or any(id(x) not in inside for x in got):
+                return f'attack surface ({tag}) is not the set of traversable children of the reached steps'
+        return None
+    bad = ask('after generation'); steps.append('queries')
+    for round_ in range(rnd.randint(1, 2)):
+        if bad: break
+        # edit the model: flip a defense of some asset, then regenerate
+        cands = [(a, d) for a in m.assets for d in m.get_asset_defenses(a, include_defaults=True)]
+        if cands:
+            a, d = rnd.choice(cands)
+            setattr(a, d, 0.0 if float(getattr(a, d)) == 1.0 else 1.0); steps.append(f'flip {a.name}.{d}')
+        g.regenerate_graph(); steps.append('regenerate')
+        if rnd.random() < 0.5:
+            apriori.calculate_viability_and_necessity(g); steps.append('analyse')
+        bad = ask(f'after regeneration {round_ + 1}')
+    return bad, {'spec': spec, 'inst': inst, 'steps': steps}
+
 def run(seed, tier, lean) -> Result:
+    res = _run(seed, tier, lean)
+    r = random.Random(seed ^ 0xC12)
+    for _ in range(300 if tier == 'quick' else 1800):
+        cs = r.getrandbits(48)
+        bad, info = free_case(random.Random(cs))
+        res.evaluations += 1; res.bump('free_attacker_cases')
+        if info['kinds'].count('free') >= 2: res.nontrivial.add(canon_hash(['free', cs]))
+        if bad:
+            res.violations.append(Violation(what='attackers not registered in the graph: ' + bad, fingerprint='C12:free:' + bad.split('(')[0][:40],
+                                            replay={'free_seed': cs, **info, 'problem': bad}))
+            break
+    for _ in range(100 if tier == 'quick' else 600):
+        cs = r.getrandbits(48)
+        bad, info = generated_case(random.Random(cs))
+        res.evaluations += 1; res.bump('generated_graph_cases')
+        if bad:
+            res.violations.append(Violation(what=f'{bad} (graph generated from a language and model; steps: {info["steps"]})',
+                                            fingerprint='C12:generated:' + bad.split(' (')[0][:40], replay={'generated_seed': cs, **info, 'problem': bad}))
+            break
+    return res
+
+def _run(seed, tier, lean) -> Result:
     rnd = random.Random(seed)
     res = Result(rule='random labelled graphs (3-9 nodes, self-loops, duplicate edges), 1-3 attackers, batches of compromises '
                       'after each of which the surface is updated incrementally and recomputed; every query result is '
@@ -156,6 +257,9 @@ def run(seed, tier, lean) -> Result:
 
 def replay(path):
     r = json.load(open(path))
+    if 'free_seed' in r or 'generated_seed' in r:
+        bad, _ = free_case(random.Random(r['free_seed'])) if 'free_seed' in r else generated_case(random.Random(r['generated_seed']))
+        print(bad); print('VIOLATION reproduced' if bad else 'not reproduced'); return 1 if bad else 0
     probs, at, _ = oracle(r['ops'])
     print('problems:', probs); print('VIOLATION reproduced' if probs else 'not reproduced')
     return 1 if probs else 0
